@@ -7,6 +7,8 @@ package stagex
 // when either side restarts, and what happens in the source directory.
 
 import (
+	"syscall"
+	"encoding/json"
 	"bytes"
 	"errors"
 	"fmt"
@@ -141,6 +143,9 @@ type Sim struct {
 	tainted  map[string]bool
 	lastMtime map[string]time.Time
 	earliest map[string]time.Time
+	rejectedIno map[string]uint64
+	rejectedAt map[string]int // name|hash -> wire sequence number at which a complete but corrupt staged copy of that version was last seen
+	voidBefore map[string]int // name|hash -> acknowledgements up to this sequence number are void AND the sender has been told so (failed verdict)
 	pollMismatch map[string]bool
 	actions  int    // externally visible sender actions so far (all generations)
 	crashAt  int    // crash the sender when actions reaches this (0: never)
@@ -505,7 +510,7 @@ func (s *Sim) onSent(f sts.Sent) {
 	v := s.versionByHash(name, hash)
 	var acked []rng
 	for _, wp := range s.wire {
-		if wp.name == name && wp.hash == hash {
+		if wp.name == name && wp.hash == hash && wp.seq > s.voidBefore[name+"|"+hash] {
 			acked = append(acked, rng{wp.beg, wp.end})
 		}
 	}
@@ -515,7 +520,7 @@ func (s *Sim) onSent(f sts.Sent) {
 		return
 	}
 	if !covered(acked, 0, int64(len(v.data))) {
-		s.violAsync("C08", "logged-sent-before-all-bytes-acknowledged", "the sender wrote %s#%.6s (%d bytes) to its sent log although the receiver acknowledged only %v",
+		s.violAsync("C08", "logged-sent-before-all-bytes-acknowledged", "the sender wrote %s#%.6s (%d bytes) to its sent log although the receiver acknowledged only %v (not counting what went into a copy whose rejection the sender had been told)",
 			name, hash, len(v.data), acked)
 	}
 }
@@ -702,8 +707,48 @@ type Fault struct {
 	J    int64 // byte position
 }
 
+// observeRejections looks for complete staged copies (<name>.full) whose bytes do not have the
+// announced hash: validation rejects such a copy and the next data request for the name discards
+// it, so nothing acknowledged so far for that version is held any more. (No part of a new attempt
+// can have been acknowledged while the .full is still there: Receive needs a .part.)
+func (s *Sim) observeRejections() {
+	if s.rejectedAt == nil {
+		s.rejectedAt, s.voidBefore, s.rejectedIno = map[string]int{}, map[string]int{}, map[string]uint64{}
+	}
+	for name := range s.versions {
+		b, err := os.ReadFile(filepath.Join(s.w.StageDir(), name+".full"))
+		if err != nil {
+			continue
+		}
+		cb, err := os.ReadFile(filepath.Join(s.w.StageDir(), name+".cmp"))
+		if err != nil {
+			continue
+		}
+		c := &sts.Partial{}
+		if json.Unmarshal(cb, c) != nil || c.Hash == "" || md5hex(b) == c.Hash {
+			continue
+		}
+		// a rejected copy may lie around while the next attempt is assembled in a new .part:
+		// each copy (inode) counts once, when first seen
+		ino := uint64(0)
+		if fi, err := os.Stat(filepath.Join(s.w.StageDir(), name+".full")); err == nil {
+			if st, ok := fi.Sys().(*syscall.Stat_t); ok {
+				ino = st.Ino
+			}
+		}
+		if s.rejectedIno[name] == ino {
+			continue
+		}
+		s.rejectedIno[name] = ino
+		s.mu.Lock()
+		s.rejectedAt[name+"|"+c.Hash] = s.seq
+		s.mu.Unlock()
+	}
+}
+
 // Serve executes one request against the receiver with the given fault.
 func (s *Sim) Serve(r *req, f Fault) {
+	s.observeRejections()
 	s.take(r)
 	s.nreq++
 	if f.Kind != XOK {
@@ -754,8 +799,14 @@ func (s *Sim) Serve(r *req, f Fault) {
 		}
 		s.mu.Lock()
 		for _, p := range out {
+			k := p.GetName() + "|" + p.GetHash()
 			if p.Received() || p.Waiting() {
-				s.positivePolls[p.GetName()+"|"+p.GetHash()] = true
+				s.positivePolls[k] = true
+			}
+			if p.Failed() && s.rejectedAt[k] > s.voidBefore[k] {
+				// the sender now knows that the copy assembled from everything acknowledged up to that
+				// point was rejected; it has to put every byte on record again
+				s.voidBefore[k] = s.rejectedAt[k]
 			}
 		}
 		s.mu.Unlock()
